@@ -16,6 +16,9 @@
      [9; q]                      container SetPromise (q=0 nil, q=p+1 promise p)
      [10; v; e]                  container SetResult(v, e)
      [11]                        container GetPromise
+     [20; ns; na; it]            (only event of its history) free-running stress: it rounds of ns SetResult calls racing with na
+                                 awaiters on a fresh promise, no gates; observation [t; d; p]: t = 1 iff every round had exactly
+                                 one true, d = 1 iff every awaiter of every round returned that call's (value, error), p = panics
      [12; a; h1; h2; h3]         (config 1 only) let container awaiter a continue from the EXIT gate of its section
    h1 h2 h3 = the status triple of the stepped actor as observed afterwards: it resolves which ready
    select case the Go runtime took ("the harness reads the choice off the observation", DESIGN 3.2).
@@ -27,7 +30,7 @@
    Errors: 0 nil, 1 context.Canceled, 2 context.DeadlineExceeded, 3+i other error i. *)
 From Util Require Import Common.Base Common.ListLemmas Promise.Model.
 
-Open Scope N_scope.
+Local Open Scope N_scope.
 
 Definition err_of (n : N) : err :=
   match n with 0 => ENil | 1 => ECanceled | 2 => EDeadline | _ => EOther (N.to_nat (n - 3)) end.
@@ -49,16 +52,18 @@ Definition memb (a : nat) (l : list nat) : bool := existsb (Nat.eqb a) l.
 Definition remb (a : nat) (l : list nat) : list nat := filter (fun b => negb (Nat.eqb a b)) l.
 Definition b2N (b : bool) : N := if b then 1 else 0.
 
-Definition pccode (s : st) (inexit : bool) (p : apc) : list N :=
+Definition pccode3 (s : st) (inexit : bool) (p : apc) : N * N * N :=
   match p with
-  | PSet _ _ _ | PSetGate _ _ _ _ | CGate _ | CSetGate _ _ | CGetGate => [1; 0; 0]
-  | PSetRet _ b _ => [3; b2N b; 0]
-  | PAw _ _ => [2; 0; 0]
-  | CNil _ _ | CProm _ _ _ => if inexit then [1; 0; 0] else [2; 0; 0]
-  | ARet v e _ => [4; v; err_code e]
-  | CSetRet r => [5; b2N r; 0]
-  | CGetRet po ch => [6; match po with Some q => N.of_nat (S q) | None => 0 end; b2N (closed (cb s) ch)]
+  | PSet _ _ _ | PSetGate _ _ _ _ | CGate _ | CSetGate _ _ | CGetGate => (1, 0, 0)
+  | PSetRet _ b _ => (3, b2N b, 0)
+  | PAw _ _ => (2, 0, 0)
+  | CNil _ _ | CProm _ _ _ => if inexit then (1, 0, 0) else (2, 0, 0)
+  | ARet v e _ => (4, v, err_code e)
+  | CSetRet r => (5, b2N r, 0)
+  | CGetRet po ch => (6, match po with Some q => N.of_nat (S q) | None => 0 end, b2N (closed (cb s) ch))
   end.
+Definition pccode (s : st) (inexit : bool) (p : apc) : list N :=
+  let '(a, b, c) := pccode3 s inexit p in [a; b; c].
 
 Definition acode (s : st) (a : nat) : list N :=
   match nth_error (acts s) a with Some x => pccode s false (pc x) | None => [] end.
@@ -175,6 +180,13 @@ Definition hstep (h : hst) (e : list N) : option (hst * list N) :=
     end
   | [10; v; er] => same (step s (CallCSetResult v (err_of er)))
   | [11] => same (step s CallCGet)
+  | [20; ns; na; _] =>
+    (* free-running stress on fresh promises (no gates, real parallelism): what c11_exactly_first_setresult_true and
+       c11_await_returns_winner say about complete runs -- exactly one true, every awaiter got the winner's result, no panic *)
+    match acts s, proms s with
+    | [], [] => if N.leb 1 ns then Some (h, [1; 1; 0]) else None
+    | _, _ => None
+    end
   | _ => None
   end.
 
@@ -290,7 +302,28 @@ Definition ch_justifies (direct : bool) (x : mact) (v e : N) : bool :=
   end.
 Definition fired (x : mact) : bool := negb (N.eqb (mk x) 0) && negb (N.eqb (mch x) 0).
 
-(* the clauses of property 11 that are false for actor i with observed status (c, v, e) *)
+(* a Promise await may return (v, e): the published result, or (0, Canceled) under its cancelled context, or what
+   its fired channel prescribes *)
+Definition djust (m : mstt) (x : mact) (v e : N) : bool :=
+  result_is m (mp x) v e || (mctx x && N.eqb v 0 && N.eqb e 1) || ch_justifies true x v e.
+(* a container await: the same with the promise that was current at its last section *)
+Definition cjust (m : mstt) (x : mact) (v e : N) : bool :=
+  (mctx x && N.eqb v 0 && N.eqb e 1) || ch_justifies false x v e ||
+  match msec x with Some (Some p) => result_is m p v e | _ => false end.
+
+(* the clauses of property 11 that are false for actor i with observed status (c, v, e):
+     1  a SetResult returned true although it was not the first call on a fresh promise, or the first returned false
+     2  a Promise await returned something that is neither the published winner's (value, error), nor (0, Canceled)
+        under its cancelled context, nor what its fired err / cancel channel prescribes
+     3  the same for a container await; "the result" = that of the promise current at its last HoldLock section
+        (a fired cancelCh gives (0, nil) here, as the container documents)
+     4  quiescent observation, a Promise awaiter is blocked although a result is available / ctx cancelled / channel fired
+     5  quiescent observation, a container awaiter is blocked although its ctx is cancelled, or the current promise has a
+        result, or the container holds nil and its channel fired
+     6  quiescent observation, a container awaiter is blocked on a promise that is not the current one (replacement not followed)
+     7  quiescent observation, a container awaiter with a live ctx is blocked although its channel fired while a PENDING
+        promise is current (known finding D20: the code selects on the channel only in the nil branch)
+     8  an actor was observed spinning (status 7)        9  an actor panicked (status 9) *)
 Definition check_actor (m : mstt) (quiet : bool) (i : nat) (x : mact) (t : N * N * N) : list nat :=
   let '(c, v, e) := t in
   (if N.eqb c 7 then [8%nat] else []) ++
@@ -306,17 +339,20 @@ Definition check_actor (m : mstt) (quiet : bool) (i : nat) (x : mact) (t : N * N
     else []
   | 4 =>
     if N.eqb c 4 then
-      if result_is m (mp x) v e || (mctx x && N.eqb v 0 && N.eqb e 1) || ch_justifies true x v e then [] else [2%nat]
+      if djust m x v e then [] else [2%nat]
     else if N.eqb c 2 && quiet then
       if has_result m (mp x) || mctx x || fired x then [4%nat] else []
     else []
   | 8 =>
     if N.eqb c 4 then
-      if (mctx x && N.eqb v 0 && N.eqb e 1) || ch_justifies false x v e ||
-         match msec x with Some (Some p) => result_is m p v e | _ => false end
-      then [] else [3%nat]
+      if cjust m x v e then [] else [3%nat]
     else if N.eqb c 2 && quiet then
       (if mctx x then [5%nat] else []) ++
+      (* it is durably blocked, so it waits on the promise of its last section: that must be the current one *)
+      (match msec x with
+       | Some sp => if opt_eqb sp (mcur m) then [] else [6%nat]
+       | None => []
+       end) ++
       match mcur m with
       | Some p => if has_result m p then [5%nat] else if fired x && negb (mctx x) then [7%nat] else []
       | None => if fired x then [5%nat] else []
@@ -325,13 +361,21 @@ Definition check_actor (m : mstt) (quiet : bool) (i : nat) (x : mact) (t : N * N
   | _ => []
   end.
 
+Definition mon_stress (o : list N) : list (nat * nat) :=
+  match o with
+  | [t; d; pn] => (if N.eqb t 1 then [] else [(11, 1)]) ++ (if N.eqb d 1 then [] else [(11, 2)]) ++ (if N.eqb pn 0 then [] else [(11, 9)])
+  | _ => [(11, 9)]
+  end%nat.
+
 Definition mon (m : mstt) (e o : list N) : mstt * list (nat * nat) :=
+  match e with 20 :: _ => (m, mon_stress o) | _ =>
   let m1 := mapply m e in
   let tr := chunk3 o in
   let quiet := negb (existsb (fun t : N * N * N => let '(c, _, _) := t in N.eqb c 1 || N.eqb c 7) tr) in
   let rows := combine (combine (seq 0 (length (macts m1))) (macts m1)) tr in
   let bad := flat_map (fun r : nat * mact * (N * N * N) => let '(i, x, t) := r in check_actor m1 quiet i x t) rows in
-  (m1, map (fun c => (11%nat, c)) (filter (fun c => existsb (Nat.eqb c) bad) [1; 2; 3; 4; 5; 7; 8; 9]%nat)).
+  (m1, map (fun c => (11%nat, c)) (filter (fun c => existsb (Nat.eqb c) bad) [1; 2; 3; 4; 5; 6; 7; 8; 9]%nat))
+  end.
 
 Definition run_check_promise (cfg : list N) (evs obss : list (list N)) : list issue :=
   run_check hstep mon (hinit cfg) minit evs obss.
